@@ -102,9 +102,8 @@ theorem foldlM_fresh (g : Graph) (ts : List Task) (hf : ∀ t ∈ ts, IsFresh t)
 
 theorem taskOK_freshTask (isEpic : Bool) (id uuid epicId title body : String) (now : Time)
     (ht : Text.isBlank title = false) (hn : now ≠ 0) : TaskOK (freshTask isEpic id uuid epicId title body now) := by
-  refine ⟨?_, ?_, ?_, ?_, ?_, ht, ?_, hn⟩
+  refine ⟨?_, ?_, ?_, ?_, ht, ?_, hn⟩
   · simp [freshTask, maxTimes, maxTime]
-  · intro _; rfl
   · intro h; exact absurd rfl h
   · intro _; rfl
   · simp [freshTask]
